@@ -119,7 +119,7 @@ func planFor(prop string, seed uint64) *Plan {
 		return GenEventLoopPlan(seed)
 	case "C15":
 		return GenCmdCachePlan(seed)
-	case "C04", "C08", "C09":
+	case "C04":
 		if seed%2 == 0 {
 			return GenPuppetPlan(prop, seed)
 		}
